@@ -263,7 +263,7 @@ def run(ck, F):
         B = M.Body(b)
         for cyc in M.cfg_cycles(B):
             n_loops += 1
-            calls = [M.Body.callee_decl(B.term(x)) or "" for x in cyc if B.term(x).get("k") == "call"]
+            calls = _loop_calls(F, B, cyc)
             site = B.term(cyc[0]).get("sp")
             if any(c.endswith("iter::Iterator::next") for c in calls):
                 ck.ok("R4", f"loop@{_ord(b, cyc)}:iterator", site, "iterator loop", fn=b["path"])
@@ -281,3 +281,24 @@ def run(ck, F):
 
 def _ord(b, cyc):
     return f"bb{cyc[0]}"
+
+
+def _loop_calls(F, B, cyc, depth=0):
+    """Callee declarations of the calls in the loop, including those made by closures that the loop body calls or hands to a
+    call (`opt.map_or(1, |n| n.wrapping_add(1))`, `is_taken(&x)` with `let is_taken = |c| list.iter().any(..)`)."""
+    out = []
+    for x in cyc:
+        t = B.term(x)
+        if t.get("k") != "call":
+            continue
+        out.append(M.Body.callee_decl(t) or "")
+        if depth > 2:
+            continue
+        for a in t.get("args", []):
+            for o in M.trace(B, a, M.IDENTITY_CALLS):
+                if o.kind == "aggregate" and o.rv.get("closure"):
+                    cb = F.lib.body(o.rv["closure"])
+                    if cb is not None and cb.get("mir"):
+                        CB = M.Body(cb)
+                        out += _loop_calls(F, CB, sorted(CB.reach), depth + 1)
+    return out
